@@ -83,6 +83,7 @@ fn main() {
         "route_kp" => routing::route_kp(&args),
         "dead_window" => routing::dead_window(&args),
         "factory_drain" => worker::factory_drain(&args),
+        "factory_queuer" => worker::factory_queuer(&args),
         "outport" => outport::run(&args),
         "pg" => pg::run(&args),
         "pg_race" => pg::race(&args),
